@@ -83,6 +83,8 @@ def _gen_tree(rng, depth, budget, ids, frac_ok, used_prefix=""):
         it = {"id": iid, "name": nm, "kind": kind}
         if kind == "folder":
             it["children"] = _gen_tree(rng, depth + 1, budget, ids, frac_ok)
+            if rng.random() < 0.25:
+                it["nocount"] = True  # Graph may omit childCount in the folder facet
         else:
             if rng.random() < 0.85:
                 it["size"] = rng.choice([0, 1, 1024, 10 ** 7])
